@@ -283,8 +283,12 @@ def sweep(prop, jobs=None, limit=None):
     for desc, spec in enumerate_mutants(fn):
       tasks.append((prop, rel, qual, '%s::%s %s' % (rel.split('/')[-1], qual,
                                                     desc), spec, tuple(base)))
-  if limit:
-    tasks = tasks[:limit]
+  total_mutants = len(tasks)
+  if limit and len(tasks) > limit:
+    # deterministic spread over all analysed functions
+    step = len(tasks) / float(limit)
+    seed = int(os.environ.get('VERIF_SEED', '0') or 0)
+    tasks = [tasks[int((i * step + seed) % len(tasks))] for i in range(limit)]
   jobs = jobs or min(16, os.cpu_count() or 4)
   res = []
   with concurrent.futures.ProcessPoolExecutor(max_workers=jobs) as ex:
@@ -292,6 +296,7 @@ def sweep(prop, jobs=None, limit=None):
       res.append(r)
   out = {
       'functions': len(funcs),
+      'mutants_enumerated': total_mutants,
       'mutants': len(res),
       'killed': sum(1 for r in res if r[1] == 'killed'),
       'broken_analysis': sum(1 for r in res if r[1] == 'broken'),
